@@ -1,4 +1,5 @@
 import PyecoreModel.Driver.OSetProto
+import PyecoreModel.Driver.StoreProto
 /-!
 Line-protocol driver over the executable model (`Model/*`, no Mathlib ⇒ links natively).
 `driver <protocol>` reads one operation per line on stdin and prints one record per line.
@@ -17,4 +18,5 @@ def main (args : List String) : IO UInt32 := do
   let stdin ← IO.getStdin
   match args with
   | ["oset"] => loop stdin Py.OSetProto.step Py.OSetProto.init; return 0
-  | _ => IO.eprintln "usage: driver <oset>"; return 2
+  | ["store"] => loop stdin Store.Proto.step Store.Proto.init; return 0
+  | _ => IO.eprintln "usage: driver <oset|store>"; return 2
